@@ -170,6 +170,17 @@ fn check_case(case: &Value, stats: &mut Stats) -> CheckResult {
     let custom = case["custom_number"].as_u64().unwrap_or(1) as usize;
     let start_side = sim.positions[0].side;
     let start_num = sim.positions[0].full as usize;
+    // per-move tokens from the reference writers (computed once), not from the library
+    let mut tok_san: Vec<String> = Vec::with_capacity(n);
+    let mut tok_utf8: Vec<String> = Vec::with_capacity(n);
+    let mut tok_uci: Vec<String> = Vec::with_capacity(n);
+    for i in 0..n {
+        let legal = sim.positions[i].legal();
+        let t = sim.positions[i].san(&sim.moves[i], &legal);
+        tok_utf8.push(crate::props::c09::utf8_render(&sim.positions[i], &sim.moves[i], &t));
+        tok_san.push(t);
+        tok_uci.push(sim.moves[i].uci());
+    }
     for (nums, nname) in [(NumberPolicy::Omit, "omit"), (NumberPolicy::FromBoard, "from_board"), (NumberPolicy::Custom(custom), "custom")] {
         for (style, sname) in [(Style::San, "san"), (Style::SanUtf8, "utf8"), (Style::Uci, "uci")] {
             for (status, show) in [(GameStatusPolicy::Show, true), (GameStatusPolicy::Hide, false)] {
@@ -191,9 +202,11 @@ fn check_case(case: &Value, stats: &mut Stats) -> CheckResult {
                             toks.push(format!("{}...", num));
                         }
                     }
-                    let mv = sim.chain.get(i);
-                    let t = mv.styled(&boards[i], style).map_err(|e| Failure::new(format!("styled() of recorded move refused: {}", e)))?.to_string();
-                    toks.push(t);
+                    toks.push(match style {
+                        Style::Uci => tok_uci[i].clone(),
+                        Style::San => tok_san[i].clone(),
+                        Style::SanUtf8 => tok_utf8[i].clone(),
+                    });
                 }
                 if show {
                     toks.push(status_token(&sim.outcome).to_string());
@@ -226,8 +239,7 @@ pub fn property() -> Property {
                and the chain is untouched (== its clone, same current snapshot). uci() text equals the reference coordinate texts and \
                from_uci_list(start, text) rebuilds an equal chain. styled() for 3 number policies (custom numbers up to 2^32) x 3 styles x \
                2 status policies equals a string assembled independently (N. before White's moves, N... if Black starts, numbers \
-               continuing from the start/custom number, final 1-0|0-1|1/2-1/2|* iff Show; per-move tokens from mv.styled on replayed \
-               positions, whose correctness is C09's job). Non-trivial = walker script with a direction change after a jump, or a chain \
+               continuing from the start/custom number, final 1-0|0-1|1/2-1/2|* iff Show; per-move tokens from the reference SAN / coordinate writers). Non-trivial = walker script with a direction change after a jump, or a chain \
                that starts with Black; distinct by case. long_chain: three chains of 65,541-70,003 plies (more than 16 bits of plies) \
                built from a reversible 4-ply cycle: walker from both ends across the 2^16 boundary and a full forward pass against the \
                model, UCI text, and popping everything.",
